@@ -72,7 +72,12 @@ def run(world_args, steps, scenario=None):
             world.run_idle()
         elif st[0] == 'tick':
             world.tick(st[1])
-    world.run_idle()
+        elif st[0] == 'cl_down':
+            world.cl_down(st[1])
+        elif st[0] == 'cl_up':
+            world.cl_up(st[1])
+    if world.run_idle(max_steps=20000) >= 20000:
+        raise RuntimeError('scenario did not quiesce within 20000 deferred callbacks')
     return world.finish(scenario or {})
 
 
@@ -274,13 +279,56 @@ def c19_executions(tier, seed):
         steps = [('recv', octets, {'note': outcome}), ('idle',), ('recv', octets, {'note': 'repeat'}), ('idle',)]
         traces.append(run({'rx_routes': rx, 'tx_routes': tx}, steps))
         metas.append({'flags': sorted(n for (n, v) in F.items() if fl2 & v), 'report_to': rpt, 'outcome': outcome})
+    # the same through the real convergence layer adaptors (bp.cla) with CL services leaving / re-joining the bus:
+    # a bundle whose CL service is away never leaves the node, so it is deleted, not forwarded
+    txa = [('dtn://other/', 'dtn://other/', None, 'udpcl'), ('dtn://far/', 'dtn://far/', None, 'btpu'),
+           ('dtn://rpt/', 'dtn://rpt/', None, 'btpu'), ('dtn://rpu/', 'dtn://rpu/', None, 'udpcl')]
+    nadapt = 60 if tier == 'quick' else 600
+    for j in range(nadapt):
+        k += 1
+        steps = []
+        down = set()
+        desc = []
+        for n in range(rnd.choice([2, 3, 4])):
+            move = rnd.choice(['recv', 'recv', 'recv', 'toggle_udpcl', 'toggle_btpu'])
+            if move.startswith('toggle'):
+                cl = move[7:]
+                steps.append(('cl_up' if cl in down else 'cl_down', cl))
+                down ^= {cl}
+                desc.append(('up ' if cl not in down else 'down ') + cl)
+                continue
+            fl = rnd.choice(flagsets) | rnd.choice([0, F['TIME']])
+            dest = rnd.choice(['dtn://other/svc', 'dtn://far/x', PROBE, 'dtn://bad/x'])
+            rpt = rnd.choice(['dtn://rpt/r', 'dtn://rpu/r', 'dtn:none'])
+            octets = mk(dest=dest, rpt=rpt, ts=(888000 + k, n), flags=fl, pay=payload(6, k + n),
+                        crc=rnd.choice([0, 1, 2]), ext=[hop_count(2, 9, 1)] if n % 2 else [])
+            via = rnd.choice([None, 'udpcl', 'btpu'])
+            steps.append(('recv', octets, {'note': 'adaptor', 'via': None if via in down else via}))
+            steps.append(('idle',))
+            desc.append('recv %s rpt %s' % (dest, rpt))
+        traces.append(run({'rx_routes': rx, 'tx_routes': txa, 'adaptors': True}, steps))
+        metas.append({'adaptors': True, 'script': desc})
+    # directed: the CL service of the forwarding route is away, the one of the report-to route is present
+    for (cl, dest, rpt) in (('udpcl', 'dtn://other/svc', 'dtn://rpt/r'), ('btpu', 'dtn://far/x', 'dtn://rpu/r')):
+        for fl in (F['FWDREP'], F['DELREP'], F['FWDREP'] | F['DELREP'],
+                   F['RCVREP'] | F['FWDREP'] | F['DELREP'] | F['TIME'], 0):
+            k += 1
+            b1 = mk(dest=dest, rpt=rpt, ts=(999000 + k, 0), flags=fl, pay=payload(7, k), crc=1)
+            b2 = mk(dest=dest, rpt=rpt, ts=(999000 + k, 1), flags=fl, pay=payload(8, k), crc=2)
+            b0 = mk(dest=dest, rpt=rpt, ts=(999000 + k, 2), flags=fl, pay=payload(9, k), crc=0)
+            steps = [('recv', b0, {'note': 'cl up'}), ('idle',), ('cl_down', cl), ('recv', b1, {'note': 'cl away'}),
+                     ('idle',), ('cl_up', cl), ('recv', b2, {'note': 'cl back'}), ('idle',)]
+            traces.append(run({'rx_routes': rx, 'tx_routes': txa, 'adaptors': True}, steps))
+            metas.append({'adaptors': True, 'script': ['recv', 'down ' + cl, 'recv', 'up ' + cl, 'recv'],
+                          'flags': sorted(n for (n, v) in F.items() if fl & v)})
     return traces, metas
 
 
 # ---------------------------------------------------------------------------- C05
-def envelope(dest, src, flags, crc, ext, total, off):
+def envelope(dest, src, flags, crc, ext, total, off, rpt='dtn:none'):
     ''' Size of a fragment bundle with empty payload, by the independent writer. '''
-    return len(mk(src=src, dest=dest, flags=flags, crc=crc, ext=ext, frag=(off, total), pay=b'', ts=(5000, 1)))
+    return len(mk(src=src, dest=dest, rpt=rpt, flags=flags, crc=crc, ext=ext, frag=(off, total), pay=b'',
+                  ts=(5000, 1)))
 
 
 def c05_cases(tier, rnd):
@@ -296,6 +344,7 @@ def c05_cases(tier, rnd):
         'none': [],
         'hop': [hop_count(2, 30, 1)],
         'repl': [unknown(3, 2, flags=1), hop_count(2, 30, 1)],
+        'allrepl': [unknown(3, 2, flags=1)],
         'mixed': [unknown(7, 1, flags=0), unknown(3, 2, flags=1), prev_node(4, 'dtn://p/')],
     }
     cases = []
@@ -306,19 +355,65 @@ def c05_cases(tier, rnd):
                     cases.append((total, ename, ext, crc, mode))
     if tier == 'quick':
         cases = rnd.sample(cases, 150)
+    # fragmentation that becomes impossible part-way: the first fragments fit, a later one does not, because the
+    # head of the fragment-offset field grows at 24 / 256 / 65536 (needs every extension block replicated)
+    for total in ((30, 300) if tier == 'quick' else (25, 26, 30, 40, 257, 300, 1000)):
+        for ename in ('none', 'allrepl'):
+            for crc in (0, 1, 2) if tier != 'quick' else (0, 1):
+                for mode in ('send', 'forward'):
+                    cases.append((total, ename, ext_sets[ename], crc, mode, 'midway'))
     return cases
+
+
+_DELTA = {}
+
+
+def probe_delta(mode, ename, ext, crc):
+    ''' Scenario generation only: by how many octets the agent's own fragment envelope exceeds the envelope
+    of the received blocks (the agent adds blocks of its own when it forwards, e.g. Previous Node).  Found by
+    offering a 10-octet payload at growing MTUs until fragments appear; every verdict is still TLC's. '''
+    key = (mode, ename, crc)
+    if key in _DELTA:
+        return _DELTA[key]
+    src = NODE + 'app' if mode == 'send' else 'dtn://src/app'
+    dest = 'dtn://other/svc'
+    e0 = envelope(dest, src, 0, crc, ext, 10, 0)
+    octets = mk(src=src, dest=dest, flags=0, crc=crc, ext=ext, pay=payload(10, 1), ts=(4000, 1))
+    found = 0
+    for d in range(-3, 120):
+        tx = [('dtn://other/', 'dtn://other/', e0 + 1 + d)]
+        steps = [('send', octets, {'expect_error': True}) if mode == 'send' else ('recv', octets, {'note': 'probe'}),
+                 ('idle',)]
+        trace = run({'rx_routes': [('dtn://other/', 'forward')], 'tx_routes': tx}, steps)
+        if sum(1 for ev in trace if ev['a'] == 'ClOut') >= 2:
+            found = d
+            break
+    _DELTA[key] = found
+    return found
 
 
 def c05_executions(tier, seed):
     rnd = random.Random(seed * 23 + 5)
     traces, metas = [], []
-    for (k, (total, ename, ext, crc, mode)) in enumerate(c05_cases(tier, rnd)):
+    expanded = []
+    for case in c05_cases(tier, rnd):
+        if len(case) == 5:
+            expanded.append(case + (None, 0))
+        else:
+            expanded.extend(case + (back,) for back in (-1, 0, 1, 2))
+    for (k, (total, ename, ext, crc, mode, forced, back)) in enumerate(expanded):
         src = NODE + 'app' if mode == 'send' else 'dtn://src/app'
         dest = 'dtn://other/svc'
         flags = rnd.choice([0, 0, 0, F['RCVREP'] | F['FWDREP'] | F['DELREP']])
         special = rnd.choice(['frag', 'frag', 'frag', 'frag', 'fits', 'nofrag', 'isfrag', 'impossible'])
+        if forced:
+            special = forced
         pay = payload(total, k)
-        env = envelope(dest, src, flags, crc, ext, total, max(total - 1, 0))
+        rpt = rnd.choice(['dtn:none', 'dtn://rpt/r'])
+        # envelope at the largest fragment offset, as the agent itself will build it
+        delta = probe_delta(mode, ename, ext, crc)
+        # (the agent budgets every fragment with the byte-string head of the whole payload length)
+        env = envelope(dest, src, flags, crc, ext, total, max(total - 1, 0), rpt) + delta + len(bp7.head(2, total)) - 1
         whole = len(mk(src=src, dest=dest, flags=flags, crc=crc, ext=ext, pay=pay, ts=(5000 + k, 1)))
         # keep the number of fragments small: per-fragment budget at least total/30
         slack_choices = [1, 2, 3, 9, 23, 24, 25, 100, 255, 256, 257, 3000]
@@ -327,7 +422,14 @@ def c05_executions(tier, seed):
         if special == 'fits':
             mtu = whole + rnd.choice([0, 1, 50])
         elif special == 'impossible':
-            mtu = rnd.choice([env - 1, env - 5, 10, env])
+            mtu = rnd.choice([env - 1, env - 5, 10, env, env - delta])
+            if total > 3000:
+                # certainly below the first fragment's envelope (a tight MTU would mean thousands of fragments)
+                mtu = rnd.choice([10, env - delta - 60])
+        elif special == 'midway':
+            # env is the envelope at the largest offset: at env (and env - 1 beyond 256) the early fragments
+            # carry one or two octets and a later one has no room; env + 1 is the smallest workable MTU
+            mtu = env - back
         elif special == 'nofrag':
             flags |= F['NOFRAG']
             mtu = env + slack
@@ -336,8 +438,7 @@ def c05_executions(tier, seed):
             mtu = env + slack
         else:
             mtu = env + slack
-        octets = mk(src=src, dest=dest, rpt=rnd.choice(['dtn:none', 'dtn://rpt/r']), flags=flags, crc=crc, ext=ext,
-                    pay=pay, ts=(5000 + k, 1), frag=frag)
+        octets = mk(src=src, dest=dest, rpt=rpt, flags=flags, crc=crc, ext=ext, pay=pay, ts=(5000 + k, 1), frag=frag)
         rx = [('dtn://other/', 'forward')]
         tx = [('dtn://other/', 'dtn://other/', mtu), ('dtn://rpt/', 'dtn://rpt/', None)]
         if mode == 'send':
@@ -346,7 +447,7 @@ def c05_executions(tier, seed):
             steps = [('recv', octets, {'note': special}), ('idle',)]
         traces.append(run({'rx_routes': rx, 'tx_routes': tx}, steps))
         metas.append({'mode': mode, 'total': total, 'mtu': mtu, 'envelope': env, 'whole': whole, 'ext': ename,
-                      'crc': crc, 'case': special, 'flags': flags})
+                      'crc': crc, 'case': special, 'flags': flags, 'own_blocks_octets': delta})
     return traces, metas
 
 
